@@ -29,6 +29,8 @@ from hpstatic.poly import Canon
 from hpstatic.terms import (sym, intern, show, subterms, calls_in, NONE, num, kw)
 from . import c05
 
+MUTATION_TARGETS = {'holopy/scattering/theory/lens.py': ['_integrand_prefactor', '_integrand_prll', '_integrand_perp', '_calc_scattering_matrix', '_compute_field_phase', 'raw_fields'], 'holopy/scattering/theory/mielens.py': ['raw_fields', '_create_calculator'], 'holopy/scattering/theory/mielensfunctions.py': ['calculate_scattered_field', '_calculate_phase', '_calculate_aberrated_phase', '_calculate_incident_field']}
+
 LEVEL = 'other'
 META = dict(
     claimed=True,
